@@ -421,6 +421,17 @@ def _build(spec):
             def noise(n, seed):
                 g = grid(n)
                 return _df_noise(nm.sample(g, n_samples=N_IDS_DF, seed=seed), ll, params, g, N_IDS_DF)
+
+            def prior_draws(seed, ns=3):
+                # the mechanistic parameter sets the model is simulated with (= the draws from the prior)
+                from vf import analytic_model
+                analytic_model.SIM_LOG[0] = []
+                try:
+                    model.sample(times.copy(), n_samples=ns, seed=seed)
+                    return sorted(set(analytic_model.SIM_LOG[0]))
+                finally:
+                    analytic_model.SIM_LOG[0] = None
+            meta['prior_draws'] = prior_draws
             return call, noise, meta
         posts = [chi.PosteriorPredictiveModel(pm, _dataset(ds, names)) for ds in t['datasets']]
         cposts = [chi.PosteriorPredictiveModel(pm, _const_dataset(params, names)) for _ in t['datasets']]
@@ -478,6 +489,7 @@ def _build(spec):
 
         def noise(n, seed):
             return np.asarray(call(seed, n), dtype=float)
+        meta['lp'] = lp
         return call, noise, meta
 
     if entry == 'hlp':
@@ -706,6 +718,42 @@ def check(case):
     else:
         dcall = call
 
+    # ---- starting points of a seeded inference controller ------------------------------------
+    # whatever the history of set_n_runs calls (below and above the default of 5 runs), the chains start at
+    # sample_initial_parameters(n_runs, seed of the controller): one seeded draw, no replayed sub-stream
+    if entry == 'lp' and form == 'int':
+        with case.clause('controller_start:lp'):
+            import chi
+            import pints
+            lp = meta['lp']
+            for history in ([7], [2, 7], [6, 8], [3]):
+                x0 = np.asarray(lp.sample_initial_parameters(n_samples=history[-1], seed=seeds['A']), dtype=float)
+                if not all(np.isfinite(float(lp(row.copy()))) for row in x0):
+                    continue
+                ctrl = chi.SamplingController(lp, seed=seeds['A'])
+                for k in history:
+                    ctrl.set_n_runs(k)
+                ctrl.set_parallel_evaluation(False)
+                ctrl.set_sampler(pints.HaarioBardenetACMC)
+                captured = []
+                orig = pints.MCMCController.run
+
+                def wrapped(self, *a, **k):
+                    out = orig(self, *a, **k)
+                    captured.append(np.array(out, dtype=float, copy=True))
+                    return out
+                pints.MCMCController.run = wrapped
+                try:
+                    ctrl.run(n_iterations=2)
+                finally:
+                    pints.MCMCController.run = orig
+                case.equal(len(captured), 1, 'number of pints.MCMCController.run calls')
+                case.close(captured[0][:, 0, :], x0, rtol=0, atol=0,
+                           what='starting points after set_n_runs history %r vs sample_initial_parameters(%d, seed)' % (
+                               history, history[-1]))
+                case.equal(len(set(map(tuple, captured[0][:, 0, :].tolist()))), len(x0),
+                           'number of distinct starting points after set_n_runs history %r' % (history,))
+
     # ---- the program ---------------------------------------------------------------------
     results = {}
     ran = False
@@ -745,6 +793,29 @@ def check(case):
                             if sa != sb and same(canon(dcall(sa)), canon(dcall(sb))):
                                 case.fail('identical', 'seeds %d and %d (and %d, %d) give identical results' % (
                                     seeds[labs[i]], seeds[labs[j]], sa, sb))
+
+    # ---- calls without a seed: successive calls draw on, they do not replay one another; the caller's own draws from
+    # the global generator afterwards are not the numbers the call has just used
+    if ran and meta['random']:
+        with case.clause('unseeded:' + entry):
+            np.random.seed(seeds['A'] % (2 ** 31))
+            r1, r2 = canon(dcall(None)), canon(dcall(None))
+            if same(r1, r2):
+                r3, r4 = canon(dcall(None)), canon(dcall(None))
+                if same(r3, r4) or same(r1, r3):
+                    case.fail('identical', 'successive calls without a seed return identical results (%s)' % _describe(r1, r2))
+
+    if ran and meta.get('prior_draws') is not None:
+        with case.clause('unseeded_prior_draws:' + entry):
+            pd_ = meta['prior_draws']
+            np.random.seed(seeds['B'] % (2 ** 31))
+            a, b = pd_(None), pd_(None)
+            case.true(len(a) >= 1 and len(b) >= 1, 'no simulation was recorded', kind='harness')
+            if len(set(t_[:1] for t_ in a)) > 1 or a != pd_(seeds['A']):
+                # (the prior is not a point mass)
+                case.true(a != b, 'two successive calls without a seed simulate the very same parameter sets drawn from '
+                          'the prior: %r' % (a[:2],), kind='identical')
+            case.equal(pd_(seeds['A']), pd_(seeds['A']), 'parameter sets drawn from the prior by two calls with the same seed')
 
     # ---- small calls: the samples of ONE call are independent of each other also when there are few of them ----
     if meta.get('hetero_col') is not None:
